@@ -958,6 +958,18 @@ func NewOpLib() *OpLib {
 		}
 		p.Txs = one("lp1", &ctypes.MsgVestNow{Creator: w.A("lp1").Addr.String(), Denom: "ueden", Amount: amt})
 	})
+	// the WHOLE claimed Eden balance (for an account holding nothing else the record becomes empty)
+	for _, who := range []string{"lp1", "t1"} {
+		who := who
+		l.Add("vest_now_all_"+who, "vestnow", 0, func(w *World, p *BlockPlan) {
+			cm := w.App.CommitmentKeeper.GetCommitments(w.RCtx(), w.A(who).Addr)
+			amt := cm.GetClaimedForDenom("ueden")
+			if !amt.IsPositive() {
+				amt = I(1)
+			}
+			p.Txs = one(who, &ctypes.MsgVestNow{Creator: w.A(who).Addr.String(), Denom: "ueden", Amount: amt})
+		})
+	}
 	l.Add("stake_elys_lp1", "stake", 0, func(w *World, p *BlockPlan) {
 		p.Txs = one("lp1", &ctypes.MsgStake{Creator: w.A("lp1").Addr.String(), Asset: "uelys", Amount: I(1e9), ValidatorAddress: w.ValAddr.String()})
 	})
